@@ -631,3 +631,71 @@ def r_search_all_paths(cx):
                   "directories have not been searched" % name,
                   cx.where(f.term(early[0][0])["span"]) if early else cx.where(f.term(lp.header)["span"]))
     cx.count("R-SEARCH-ALL-PATHS", "path_loops", n)
+
+
+@rule("R-SIBLING-SEARCH", ["C08"])
+def r_sibling_search(cx):
+    """Ntv2Grid::find_grid walks the sub-grid tree with a work list. A pass of the loop may end the walk early (break)
+    only after it has recorded the grid just examined as the current best (`current_grid_id.clone_from(..)`): a pass
+    that rejects a sub-grid (point outside, or on its upper limit) goes on with the remaining siblings."""
+    f = cx.f.fn("grid::ntv2::Ntv2Grid::find_grid")
+    n = 0
+    for lp in f.loops():
+        if lp.parent is not None:
+            continue
+        t = f.term(lp.header)
+        if t["k"] != "call" or not (f.callee(t) or "").endswith("::pop"):
+            continue
+        n += 1
+        def _is(t2, what):
+            full = (t2.get("callee_full") or "") + " " + (f.callee(t2) or "")
+            return (f.callee(t2) or "").endswith("::clone_from") and (("Vec<" in full) == (what == "queue"))
+        records = {bb for bb, t2 in f.calls() if bb in lp.body and _is(t2, "record")}
+        refills = {bb for bb, t2 in f.calls() if bb in lp.body and _is(t2, "queue")}
+        for rb in sorted(refills):
+            okr = any(f.dominates(x, rb) for x in records)
+            cx.ob("R-SIBLING-SEARCH", "find_grid/descend", okr,
+                  "the walk descends into the children of a sub-grid only after recording that sub-grid" if okr else
+                  "Ntv2Grid::find_grid descends into the children of a sub-grid without recording the sub-grid itself: a "
+                  "point inside it but outside all of its children falls back to an ancestor", cx.where(f.term(rb)["span"]))
+        hs = {lp.header} | {x for x in f.succ[lp.header] if x in lp.body}
+        bad = None
+        inside = f.reach_from([lp.header], avoid=tuple(records))
+        for (a, b) in lp.exits:
+            if a in hs:
+                continue
+            ta = f.term(a)
+            if f.term(b)["k"] in ("unreachable", "resume", "abort"):
+                continue
+            if ta["k"] in ("call", "assert", "drop") and b != ta.get("target"):
+                continue
+            if f.term(b)["k"] == "return" or _leads_to_return_only(f, b):
+                continue      # `return None` on a malformed hierarchy
+            if a in inside and a in lp.body:
+                bad = a
+        cx.ob("R-SIBLING-SEARCH", "find_grid/loop%d" % (n - 1), bad is None and bool(records),
+              "the walk over the sub-grids ends early only after recording the grid found" if bad is None and records else
+              "Ntv2Grid::find_grid can break out of the walk over the sibling sub-grids without having recorded a grid: "
+              "the remaining siblings are never tried and the point falls back to the parent",
+              cx.where(f.term(bad)["span"]) if bad is not None else cx.where(f.d["span"]))
+    cx.count("R-SIBLING-SEARCH", "walks", n)
+
+
+def _leads_to_return_only(f, b):
+    """b reaches a return through drops / gotos only (no calls that build a result)"""
+    seen = set()
+    work = [b]
+    while work:
+        x = work.pop()
+        if x in seen:
+            continue
+        seen.add(x)
+        t = f.term(x)
+        if t["k"] == "return":
+            continue
+        if t["k"] == "call":
+            return False
+        if t["k"] == "switch":
+            return False
+        work.extend(f.succ[x])
+    return True
